@@ -88,6 +88,40 @@ theorem invariant_app_history (ops : List AOp) : Inv (appRun App.init ops).s := 
 
 theorem app_history_is_history (a : App) (op : AOp) : ∃ ops, (appStep a op).2.s = run a.s ops := appStep_base a op
 
+/-! ### message processing that is not atomic
+
+A package that carries a fresh reference of a class the receiver has not seen makes `_unbox` run a nested
+`serve()` (the `HANDLE_INSPECT` round trip) before the package is fully unboxed; a release notice travelling right
+behind the package is dispatched in there.  `deliverNested resolveFirst mid` is the owner's dispatch of a hand-back
+with such a package; `mid` ranges over ALL finite operation sequences (a superset of what a nested serve can do). -/
+
+/-- **The invariant survives a nested serve of any content**, with the order the code has now (generated constant
+`localRefsResolvedFirst`, observed on the live `_unbox`: table lookups of the whole package before any proxy). -/
+theorem invariant_nested (ops mid : List Op) :
+    Inv (deliverNested Gen.Box.localRefsResolvedFirst mid (run St.init ops)).2 := by
+  have : Gen.Box.localRefsResolvedFirst = true := by decide
+  rw [this]; exact inv_deliverNested mid _ (invariant_history ops)
+
+/-- **A release notice cannot overtake the reference it travels behind**: whatever the nested serve dispatches,
+the hand-back of the package being unboxed finds its object. -/
+theorem never_keyError_nested (ops mid : List Op) :
+    (deliverNested Gen.Box.localRefsResolvedFirst mid (run St.init ops)).1 ≠ .keyError := by
+  have : Gen.Box.localRefsResolvedFirst = true := by decide
+  rw [this]; exact deliverNested_no_keyError mid _ (invariant_history ops)
+
+/-- the hand-back whose only proxy dies at once: object 7 lent, received, handed back, dropped — the queue to the owner
+holds the hand-back with the release notice right behind it -/
+def overtaking : List Op := [.send [7], .deliverO2P, .deliverP2O, .back 7 false, .finalize 7]
+
+example : (run St.init overtaking).p2o = [.back 7 false, .del 7 1] ∧ (run St.init overtaking).tbl 7 = some 0 := by decide
+
+/-- **Counterexample for the one-pass order** (`_unbox` before commit e881f31, fresh reference in front of the
+hand-back): the nested serve dispatches the release notice, the entry is gone, the hand-back raises KeyError —
+in a state every theorem above covers.  With the lookups first the same schedule is served. -/
+theorem onePass_order_counterexample :
+    (deliverNested false [.deliverP2O] (run St.init overtaking)).1 = .keyError
+    ∧ (deliverNested true [.deliverP2O] (run St.init overtaking)).1 = .ok := by decide
+
 /-! ### non-vacuity: the race the statement names, replayed concretely -/
 
 /-- object 7 is sent, received, its proxy dropped (release notice in flight), and *at the same time* sent again
